@@ -199,6 +199,15 @@ func (h *histRun[G, S]) redistribute(cur *epoch[G, S], prev []sim.ID, next *acSp
 
 // signWith runs one signing session with the given (possibly mixed-epoch) shards.
 func (h *histRun[G, S]) signWith(shards map[sim.ID]*mpc.BaseShard[G, S], quorum []sim.ID, msg []byte, expectOK bool, site string) (*harness.Violation, error) {
+	return h.signWithStale(shards, quorum, msg, expectOK, true, site)
+}
+
+// signWithStale: staleEssential says whether the one member holding a share of
+// another epoch is needed by the quorum (the quorum without it is unqualified).
+// When it is not, the library's recombination may give that member weight zero,
+// and the signature of the remaining same-epoch shares is legitimately valid:
+// then a released signature only has to be valid.
+func (h *histRun[G, S]) signWithStale(shards map[sim.ID]*mpc.BaseShard[G, S], quorum []sim.ID, msg []byte, expectOK, staleEssential bool, site string) (*harness.Violation, error) {
 	rc := h.subRC()
 	pr := newProtoRun(rc, quorum, true)
 	ss := signSession{name: "S", quorum: quorum, msg: msg}
@@ -264,6 +273,10 @@ func (h *histRun[G, S]) signWith(shards map[sim.ID]*mpc.BaseShard[G, S], quorum 
 			}
 			pk0 := h.epochs[0].shards[h.epochs[0].spec.ids[0]].PublicKeyValue()
 			if h.fl.refVerify(pk0, msg, sig) == nil {
+				if !staleEssential {
+					h.probes["mixed_epoch_redundant_stale_member_signature_valid"]++
+					return nil, nil
+				}
 				return &harness.Violation{Class: "mixed-epoch-signature-valid", Site: site, Detail: fmt.Sprintf("shards taken from different epochs produced a valid signature (history %v, quorum %v)", h.ops, quorum)}, nil
 			}
 			return &harness.Violation{Class: "mixed-epoch-signature-released", Site: site, Detail: fmt.Sprintf("aggregator %d released a signature from mixed-epoch shards (history %v)", a, h.ops)}, nil
@@ -546,7 +559,20 @@ func runHistoryWith[G algebra.PrimeGroupElement[G, S], S algebra.PrimeFieldEleme
 				stale := q[w.IntN(len(q))]
 				if other.shards[stale] != nil {
 					mixed[stale] = other.shards[stale]
-					v, herr := h.signWith(mixed, q, drawMessage(w), false, "sign-mixed-epochs")
+					rest := map[sim.ID]bool{}
+					for _, id := range q {
+						if id != stale {
+							rest[id] = true
+						}
+					}
+					essential := !cur.spec.qualified(rest)
+					if essential {
+						h.probes["mixed_epoch_stale_member_essential"]++
+					}
+					v, herr := h.signWithStale(mixed, q, drawMessage(w), false, essential, "sign-mixed-epochs")
+					if v != nil {
+						v.Detail += fmt.Sprintf("; structure %s, stale member %d (from epoch %d, the others from epoch %d), stale member essential=%v", cur.spec.desc, stale, other.n, cur.n, essential)
+					}
 					if herr != nil {
 						return harness.Outcome{HarnessErr: herr}
 					}
